@@ -46,18 +46,18 @@ macro_rules! unit_table {
             kani::cover!(v == 1.0);
             // bare number => base unit
             let r = $q::try_from(Token::DecimalNumericProgramData(b"1.0"));
-            assert!(match r { Ok(q) => q.value.to_bits() == $q::new::<$base>(v).value.to_bits(), Err(_) => false }, concat!("C18/", stringify!($q), "::try_from/bare-number-is-taken-in-the-base-unit"));
+            assert!(match r { Ok(q) => q.value.to_bits() == $q::new::<$base>(v).value.to_bits(), Err(_) => false }, "C18/Quantity::try_from/bare-number-is-taken-in-the-base-unit");
             $(
                 let s = any_case($sfx);
                 let r = $q::try_from(Token::DecimalNumericSuffixProgramData(b"1.0", &s));
                 assert!(match r { Ok(q) => q.value.to_bits() == $q::new::<$unit>(v).value.to_bits(), Err(_) => false },
-                    concat!("C18/", stringify!($q), "::try_from/suffix-", stringify!($sfx), "-denotes-", stringify!($unit)));
+                    "C18/Quantity::try_from/table-suffix-in-any-case-denotes-the-value-in-its-SCPI-unit");
             )+
             // non-numeric elements
             let r = $q::try_from(Token::StringProgramData(b"1 V"));
-            assert!(match r { Err(e) => e == Error::new(ErrorCode::DataTypeError), Ok(_) => false }, concat!("C18/", stringify!($q), "::try_from/non-numeric-element-is-104"));
+            assert!(match r { Err(e) => e == Error::new(ErrorCode::DataTypeError), Ok(_) => false }, "C18/Quantity::try_from/non-numeric-element-is-104");
             let r = $q::try_from(Token::CharacterProgramData(b"MAX"));
-            assert!(r.is_err(), concat!("C18/", stringify!($q), "::try_from/character-data-is-rejected"));
+            assert!(r.is_err(), "C18/Quantity::try_from/character-data-is-rejected");
         }
 
         #[kani::proof]
@@ -70,7 +70,7 @@ macro_rules! unit_table {
             let s = any_prefix(&p);
             $( kani::assume(!eq_ic(s, $sfx)); )+
             let r = $q::try_from(Token::DecimalNumericSuffixProgramData(b"1.0", s));
-            assert!(r.is_err(), concat!("C18/", stringify!($q), "::try_from/suffix-not-defined-for-the-quantity-is-rejected"));
+            assert!(r.is_err(), "C18/Quantity::try_from/suffix-not-defined-for-the-quantity-is-rejected");
         }
     };
 }
